@@ -255,6 +255,18 @@ Theorem C10_writeback_ranges : forall (A : Type) (vs : list (sval A)),
 Proof. exact @ranges_partition. Qed.
 Print Assumptions C10_writeback_ranges.
 
+(* the sensitivity row of one response ("Calculate and save sensitivities"): it has one entry per design variable, and the
+   block of signal i is that signal's sensitivity of THIS iteration -- or 0*state when the signal holds no sensitivity
+   (None): nothing of an earlier iteration survives *)
+Theorem C10_sensitivity_row_blocks : forall (A : Type) (z : A -> A) (states : list (sval A)) (sens : list (option (sval A))),
+  Forall2 (fun st g => match g with Some v => length (flat v) = length (flat st) | None => True end) states sens ->
+  length (sens_row z states sens) = total states /\
+  forall i, i < length states ->
+    slice (sens_row z states sens) (nth i (cumlens states) 0) (nth (S i) (cumlens states) 0)
+    = match nth i sens None with Some g => flat g | None => map z (flat (nth i states (Arr []))) end.
+Proof. exact @sens_row_blocks. Qed.
+Print Assumptions C10_sensitivity_row_blocks.
+
 (* writing the concatenated vector back gives every signal its own values; one value -> scalar state *)
 Theorem C10_writeback_concat : forall (A : Type) (d : A) (vs : list (sval A)),
   let c := concat_to_array vs in
@@ -386,6 +398,13 @@ Example C10_nonvacuous_subsolv :
   Some ({| sx := [1]; sy := [1]; sz := 1; slam := [1]; sxsi := [1]; seta := [1]; smu := [1]; szet := 1; ss := [1] |}, 1, true)
   /\ residumax (residual_st ex_data 1 (init_state ex_data None)) = 0.
 Proof. vm_compute. split; reflexivity. Qed.
+
+(* a scalar signal and an array signal; the response has no sensitivity with respect to the array signal *)
+Example C10_nonvacuous_sensitivity_row :
+  sens_row (fun _ => 0%Z) [Scal 5%Z; Arr [1; 2; 3]%Z; Arr [7; 8]%Z] [Some (Scal 9%Z); None; Some (Arr [4; 6]%Z)] = [9; 0; 0; 0; 4; 6]%Z /\
+  Forall2 (fun st g => match g with Some v => length (flat v) = length (flat st) | None => True end)
+          [Scal 5%Z; Arr [1; 2; 3]%Z; Arr [7; 8]%Z] [Some (Scal 9%Z); None; Some (Arr [4; 6]%Z)].
+Proof. split; [vm_compute; reflexivity | repeat constructor]. Qed.
 
 Example C10_nonvacuous_vars :
   concat_to_array [Scal 5%Z; Arr [1; 2; 3]%Z; Arr [7]%Z; Arr []] = ([5; 1; 2; 3; 7]%Z, [0; 1; 4; 5; 5]%nat) /\
